@@ -1316,3 +1316,81 @@ func (p *Prog) tableEntries(sp, name string) []tableEntry {
 	sort.SliceStable(out, func(i, j int) bool { return out[i].pos < out[j].pos })
 	return out
 }
+
+
+// condsThrough: the branch conditions known at n inside fd, accumulated through every enclosing function literal (a literal
+// is created where its FuncLit node stands, so what holds there holds whenever the literal's body runs later).
+func (c *Ctx) condsThrough(fd *ast.FuncDecl, n ast.Node) []pathCond {
+	var chain []ast.Node // innermost first
+	for _, a := range ancestors(fd, n) {
+		switch a.(type) {
+		case *ast.FuncDecl, *ast.FuncLit:
+			chain = append([]ast.Node{a}, chain...)
+		}
+	}
+	var out []pathCond
+	at := n
+	for _, f := range chain {
+		var body *ast.BlockStmt
+		switch ff := f.(type) {
+		case *ast.FuncDecl:
+			body = ff.Body
+		case *ast.FuncLit:
+			body = ff.Body
+		}
+		g := c.buildCFG(body)
+		out = append(out, g.condsAt(at)...)
+		at = f
+	}
+	return out
+}
+
+
+// everyExitAfter: every path from just after `from` to a normal exit of the function (a return statement, or falling off
+// the end) passes a CFG node for which stop holds. Exits through a call that does not return (panic) are not counted.
+func (c *FnCFG) everyExitAfter(from ast.Node, stop func(ast.Node) bool) bool {
+	fb, fi, ok := c.locate(from)
+	if !ok {
+		return false
+	}
+	type pt struct{ b, i int }
+	seen := map[int]bool{}
+	okAll := true
+	var walk func(b, start int)
+	walk = func(b, start int) {
+		blk := c.g.Blocks[b]
+		for i := start; i < len(blk.Nodes); i++ {
+			n := blk.Nodes[i]
+			if stop(n) {
+				return
+			}
+			if _, isRet := n.(*ast.ReturnStmt); isRet {
+				okAll = false
+				return
+			}
+		}
+		if len(blk.Succs) == 0 {
+			// end of function: a trailing no-return call is a panic exit, anything else falls off the end
+			if len(blk.Nodes) > 0 {
+				if es, ok := blk.Nodes[len(blk.Nodes)-1].(*ast.ExprStmt); ok {
+					if ce, ok := es.X.(*ast.CallExpr); ok && c.p.noReturn(ce) {
+						return
+					}
+				}
+				if ce, ok := blk.Nodes[len(blk.Nodes)-1].(*ast.CallExpr); ok && c.p.noReturn(ce) {
+					return
+				}
+			}
+			okAll = false
+			return
+		}
+		for _, s := range blk.Succs {
+			if !seen[int(s.Index)] {
+				seen[int(s.Index)] = true
+				walk(int(s.Index), 0)
+			}
+		}
+	}
+	walk(fb, fi+1)
+	return okAll
+}
